@@ -163,12 +163,14 @@ class KModule(Module):
         self.exttypes = dict(kw.get("exttypes", {}))     # rust type name -> Ty
         self.newtypes = dict(kw.get("newtypes", {}))     # rust tuple-struct name -> Ty of its single field (erased newtype)
         self.shift_guard = kw.get("shift_guard", True)
+        self.arrays = dict(kw.get("arrays", {}))         # element lean type -> Ty of `Box<[elem]>` / `Vec<elem>` (Lean `Array`)
 
 
 class KFn(Fn):
     def __init__(self, mod, fn, scope=None, owner=None, name=None, doc="", fuel=(), kind="fn", const_generics=(), self_ty=None,
-                 fields=None):
+                 fields=None, arith=None):
         super().__init__(mod, fn, scope=scope, owner=owner, name=name, doc=doc, fuel=fuel, kind=kind, glue=fields)
+        self.arith = arith                               # per-function override of the module's arithmetic policy
         self.const_generics = list(const_generics)       # fn-level `const T: usize` -> explicit leading Lean parameters `(T : Nat)`
         self.self_ty = self_ty
 
@@ -179,6 +181,7 @@ REGISTRY = {}
 class FnInfo:
     def __init__(self, spec, params, ret, outs, fallible, cgen=()):
         self.spec = spec; self.params = params; self.ret = ret; self.outs = outs; self.fallible = fallible; self.cgen = list(cgen)
+        self.lens = None
 
 
 # ===================================================================================================== output tree
@@ -353,6 +356,14 @@ class GuardF:
         return Guard(self.cond, body)
 
 
+class IfBindF:
+    def __init__(self, pat, ty, cond, a, b):
+        self.pat = pat; self.ty = ty; self.cond = cond; self.a = a; self.b = b
+
+    def __call__(self, body):
+        return IfBind([self.pat], [self.ty], self.cond, self.a, self.b, body)
+
+
 class Val:
     def __init__(self, t, ty, at=False, lit=None, lentext=None):
         self.t = t; self.ty = ty; self.at = at; self.lit = lit; self.lentext = lentext
@@ -388,6 +399,9 @@ class Tr:
             return n
         if e[0] == "path" and e[1] in self.mod.consts and len(self.mod.consts[e[1]]) > 2:
             return self.mod.consts[e[1]][2]
+        if e[0] == "path":
+            v = self.src_const(e[1])
+            return v.lit if v is not None else None
         return None
 
     def conv(self, t, owner=None):
@@ -519,6 +533,8 @@ class Tr:
         """value conversions between the two views of a machine word (nat <-> UInt64 word) on stores / arguments"""
         if ty is None:
             return v
+        if ty.kind == "bool" and v.ty.kind == "prop":
+            return Val(f"decide ({v.t})", TBool, False)
         if ty.kind == "w64" and v.ty.kind == "nat" and v.ty.rust == "u64":
             return Val(f"UInt64.ofNat {v.p()}", ty, False)
         if ty.kind == "nat" and ty.rust == "u64" and v.ty.kind == "w64":
@@ -588,7 +604,7 @@ class Tr:
                 ix = self.ex(step[1], env, pre, TNat("usize"))
                 if ix.ty.kind != "nat" or ix.ty.rust != "usize":
                     raise TranslateError("index is not a usize")
-                if ix.lit is not None:
+                if ix.lit is not None and ty.n is not None:
                     if ix.lit >= ty.n:
                         raise TranslateError("constant index beyond the array length")
                     return Val(f"{v.p()}[{ix.t}]", ty.elem, True)
@@ -677,7 +693,7 @@ class Tr:
                 raise TranslateError(f"no field {step[1]}")
             text = f"{{ {parent.t} with {lean_id(step[1])} := {new} }}"
         elif step[0] == "elem":
-            text = f"{parent.p()}.set {info} {ok_atom(new)}"
+            text = f"{parent.p()}.{info[0]} {info[1]} {ok_atom(new)}"
         else:
             lo, hi = info
             parts = []
@@ -751,6 +767,12 @@ class Tr:
             if z == 0 and (suffix == "u8" or (suffix is None and want is not None and want.kind == "bytes")):
                 cn = n.lit if n.lit is not None else self.const_int(e[2])
                 return Val(f"zeros {n.p()}", TBytes(cn), False, lentext=n.t)
+            cn = n.lit if n.lit is not None else self.const_int(e[2])
+            key = ("arr", suffix, cn)
+            for mod in [self.mod] + list(self.mod.uses):
+                if isinstance(mod, KModule) and key in mod.exttypes and z is not None:
+                    ety = mod.exttypes[key]
+                    return Val(f"Vector.replicate {cn} {self.lit_val(z, ety.elem).t}", ety, False)
             raise TranslateError("unsupported repeat literal")
         if k == "array":
             vals = [self.ex(x, env, pre, TNat("u8")) for x in e[1]]
@@ -775,6 +797,16 @@ class Tr:
                 raise TranslateError("unit method call used as a value")
             return v
         if k == "macro":
+            if e[1] == "vec" and len(e[2]) == 1 and any(t[1] == ";" for t in e[2][0]):
+                toks = list(e[2][0])
+                i = next(j for j, t in enumerate(toks) if t[1] == ";" and t[0] == "op")
+                x = self.ex(PK(toks[:i]).expr(), env, pre)
+                n = self.ex(PK(toks[i + 1:]).expr(), env, pre, TNat("usize"))
+                for mod in [self.mod] + list(self.mod.uses):
+                    arr = getattr(mod, "arrays", {}).get(x.ty.lean) if isinstance(mod, KModule) else None
+                    if arr is not None:
+                        return Val(f"Array.replicate {n.p()} {x.p()}", arr, False)
+                raise TranslateError("vec![x; n] of an unsupported element type")
             raise TranslateError(f"macro {e[1]}! in expression position")
         raise TranslateError(f"unsupported expression {k}")
 
@@ -797,7 +829,38 @@ class Tr:
                 return Val(c[0], c[1], True)
             if len(segs) == 2 and segs[0] in mod.enums and segs[1] in mod.enums[segs[0]][1]:
                 return Val(mod.enums[segs[0]][1][segs[1]], Ty("enum", mod.enums[segs[0]][0], name=segs[0]), True)
+        c = self.src_const(name)
+        if c is not None:
+            return c
         raise TranslateError(f"unknown identifier {name}")
+
+    def src_const(self, name, depth=0):
+        """`const NAME: T = <constant expression>;` read from the CURRENT source"""
+        if not re.fullmatch(r"[A-Z][A-Z0-9_]*", name) or depth > 8:
+            return None
+        m = re.search(r"\bconst\s+" + name + r"\s*:\s*(\w+)\s*=\s*([^;]+);", self.src)
+        if not m or m.group(1) not in BITS:
+            return None
+        n = self.const_eval(PK(lex(m.group(2))).expr(), depth)
+        if n is None:
+            return None
+        return self.lit_val(n, TNat(m.group(1)))
+
+    def const_eval(self, e, depth=0):
+        k = e[0]
+        if k == "lit":
+            return e[1]
+        if k == "paren":
+            return self.const_eval(e[1], depth)
+        if k == "path":
+            v = self.src_const(e[1], depth + 1)
+            return v.lit if v is not None else None
+        if k == "bin" and e[1] in ("+", "-", "*", "/", "<<"):
+            a, b = self.const_eval(e[2], depth), self.const_eval(e[3], depth)
+            if a is None or b is None or (e[1] == "/" and b == 0):
+                return None
+            return {"+": a + b, "-": a - b, "*": a * b, "/": a // max(b, 1), "<<": a << b}[e[1]]
+        return None
 
     def struct_lit(self, e, env, pre):
         sty = self.named_ty(e[1])
@@ -841,7 +904,7 @@ class Tr:
         if isinstance(na, Ret) and isinstance(nb, Ret):
             return Val(f"if {c} then {na.text} else {nb.text}", ty, False, lit=lit)
         t = self.tmp()
-        pre.append(lambda body: IfBind([t], [ty.lean], c, na, nb, body))
+        pre.append(IfBindF(t, ty.lean, c, na, nb))
         return Val(t, ty, True)
 
     def no_fall(self, env):
@@ -978,7 +1041,10 @@ class Tr:
         if op in ("+", "-", "*", "/", "%"):
             # arithmetic on a word: on its value (u64)
             a = self.coerce(a, TNat("u64"), "operand")
-            if b.ty.kind == "w64":
+            m = re.fullmatch(r"\((\w+) : UInt64\)", b.t) if b.ty.kind == "w64" else None
+            if m:
+                b = self.lit_val(int(m.group(1), 0), TNat("u64"))
+            elif b.ty.kind == "w64":
                 b = self.coerce(b, TNat("u64"), "operand")
             self.compatible(a.ty, b.ty, f"operator {op}")
             return self.arith(op, a, b, pre)
@@ -1012,9 +1078,9 @@ class Tr:
             if n < 0 or n >= 2 ** bits:
                 raise TranslateError("literal arithmetic overflows")
             return Val(self.num(n), a.ty, True, lit=n)
-        pol = self.mod.arith.get(rust, {}).get(op)
-        if op in ("/", "%") and b.lit is not None and b.lit != 0 and not isinstance(pol, tuple):
-            return Val(f"{a.p()} {op} {b.p()}", a.ty, False)
+        pol = (self.spec.arith if getattr(self.spec, "arith", None) is not None else self.mod.arith).get(rust, {}).get(op)
+        if op in ("/", "%") and b.lit is not None and b.lit != 0:
+            return Val(f"{a.p()} {op} {b.p()}", a.ty, False)     # a non-zero constant divisor: no panic site
         if pol is None:
             raise TranslateError(f"`{op}` on {rust}: no arithmetic policy in the module spec")
         if isinstance(pol, tuple):
@@ -1107,6 +1173,21 @@ class Tr:
             return self.int_bytes(v, segs[1], segs[0])
         if path in ("Ok", "Err", "Some") and len(args) == 1:
             return self.ctor(path, args[0], env, pre, want)
+        if path.split("::")[-2:] == ["NonZeroU32", "new"] and len(args) == 1:
+            v = self.ex(args[0], env, pre, TNat("u32"))
+            if v.ty.kind != "nat" or v.ty.rust != "u32":
+                raise TranslateError("NonZeroU32::new of a non-u32")
+            return Val(v.t, Ty("nzopt", "?", inner=v), v.at)
+        nt = None
+        if len(segs) == 1 and len(args) == 1:
+            name_ = self.spec.owner if segs[0] == "Self" else segs[0]
+            for mod in [self.mod] + list(self.mod.uses):
+                if isinstance(mod, KModule) and name_ in mod.newtypes:
+                    nt = mod.newtypes[name_]
+        if nt is not None:
+            v = self.ex(args[0], env, pre, nt)
+            self.compatible(nt, v.ty, "newtype constructor")
+            return Val(v.t, nt, v.at, lentext=v.lentext)
         ext = self.find_ext_fn(path)
         if ext is not None:
             return self.ext_call(ext, None, args, env, pre)
@@ -1177,6 +1258,25 @@ class Tr:
                 if tmpl is None:
                     raise TranslateError(f"{name} on {rv.ty.rust}: no helper in the module spec")
                 return Val(tmpl.format(rv.p(), b.p(), bits=BITS[rv.ty.rust]), TOpt(TNat(rv.ty.rust)), False)
+        if kind == "nzopt":
+            inner = rv.ty.inner
+            nz = TNat("u32"); nz.nonzero = True
+            if name in ("unwrap", "expect"):
+                if inner.lit is None or inner.lit == 0:
+                    raise TranslateError("NonZeroU32::new(x).unwrap() of a non-literal")
+                return Val(inner.t, nz, True, lit=inner.lit)
+            if name == "ok_or" and len(args) == 1:
+                err = self.ex(args[0], env, pre)
+                return Val(inner.t, Ty("ressplit", "?", cond=f"{inner.p()} = 0", err=err, ok=Val(inner.t, nz, inner.at)), inner.at)
+        if kind == "ressplit" and name == "__try" and not args:
+            if self.ret_ty is None or self.ret_ty.kind != "res" or self.out_vars or self.in_loop:
+                raise TranslateError("`?` outside a Result-returning function")
+            err = self.coerce(rv.ty.err, self.ret_ty.err, "error of `?`")
+            cond = rv.ty.cond
+            pre.append(lambda body: If(cond, Ret(f".error {err.p()}"), body))
+            return rv.ty.ok
+        if name == "into_boxed_slice" and not args and kind == "ext" and getattr(rv.ty, "arr", False):
+            return rv
         if kind == "opt" and name in ("expect", "unwrap"):
             t = self.tmp()
             pre.append(BindF(t, rv.t))
@@ -1233,8 +1333,77 @@ class Tr:
         direct = lean_id(pl.root) if not pl.path else None
         return cur, (lambda new, post: self.write_place(pl, new, env, post)), direct
 
+    def lens_info(self, e, env):
+        """e = `recv.m(args)` where `m` is a `&mut`-returning accessor translated as a lens -> (info, recv expr, args)"""
+        while e[0] in ("paren", "deref"):
+            e = e[1]
+        if e[0] != "method":
+            return None
+        try:
+            rv = self.ex(e[1], env, [])
+        except TranslateError:
+            return None
+        if rv.ty.kind != "struct":
+            return None
+        info = self.lookup_fn(rv.ty.name, e[2])
+        if info is None or getattr(info, "lens", None) is None:
+            return None
+        return info, e[1], e[3]
+
+    def lens_texts(self, info, recv_e, args, env, pre):
+        """(receiver value, write-back of the receiver, argument text)"""
+        cur, wb, direct = self.out_arg(recv_e, env, pre)
+        params = info.params[1:]
+        if len(args) != len(params):
+            raise TranslateError("lens arity")
+        texts = []
+        for a, (pn, pty, mode) in zip(args, params):
+            if mode != "val":
+                raise TranslateError("lens with a `&mut` argument")
+            texts.append(self.coerce(self.ex(a, env, pre, pty), pty, f"argument {pn}").p())
+        return cur, wb, direct, " ".join(texts)
+
     def lens_of(self, a, env, pre):
-        return None
+        """`recv.m(args).view()` passed as `&mut`: current value through the getter + view, write-back through the setter"""
+        e = a
+        while e[0] in ("paren", "deref"):
+            e = e[1]
+        view = None
+        if e[0] == "method" and not e[3]:
+            li = self.lens_info(e[1], env)
+            if li is not None:
+                view = e[2]
+        if view is None:
+            li = self.lens_info(e, env)
+        if li is None:
+            return None
+        info, recv_e, args = li
+        get_name, set_name, elem, gfal, sfal = info.lens
+        cur, wb, direct, argt = self.lens_texts(info, recv_e, args, env, pre)
+        g = f"{get_name} {cur.p()} {argt}".rstrip()
+        if gfal:
+            t = self.tmp(); pre.append(BindF(t, g)); gv = Val(t, elem, True)
+        else:
+            gv = Val(g, elem, False)
+        to_t, from_t, vty = None, None, elem
+        if view is not None:
+            for mod in [self.mod] + list(self.mod.uses):
+                if isinstance(mod, KModule) and (elem.lean, view) in mod.views:
+                    to_t, from_t, vty = mod.views[(elem.lean, view)]
+            if to_t is None:
+                raise TranslateError(f"unknown view {view}")
+            gv = Val(to_t.format(gv.p()), vty, False)
+
+        def write(new, post):
+            nv = from_t.format(atomize(new) if re.fullmatch(r"[\w.]+", new) else f"({new})") if from_t else new
+            text = f"{set_name} {cur.p()} {argt}".rstrip() + " " + ok_atom(nv)
+            if direct is not None:
+                post.append(BindF(direct, text) if sfal else LetF(direct, text))
+            else:
+                t2 = self.tmp()
+                post.append(BindF(t2, text) if sfal else LetF(t2, text))
+                wb(t2, post)
+        return gv, write, None
 
     def bind_results(self, text, fails, outs, ret_ty, pre):
         """bind the results of a call: outs = [(write-back fn, direct name or None)] -> Val or None"""
@@ -1284,15 +1453,15 @@ class Tr:
                 cur, wb, direct = self.out_arg(a, env, pre)
                 if not (pty.kind == "abs" and not self.mod.generic):     # instantiated by the caller's dictionary (`Module.dicts`)
                     self.compatible(pty, cur.ty, f"argument {pn}")
-                if pty.kind == "bytes" and pty.n is not None and cur.ty.n != pty.n:
+                if pty.kind == "bytes" and pty.n is not None and cur.ty.n is not None and cur.ty.n != pty.n:
                     raise TranslateError(f"argument {pn}: array length")
                 texts.append(cur.p()); outs.append((wb, direct))
             else:
                 v = self.coerce(self.ex(a, env, pre, pty), pty, f"argument {pn}")
-                if pty.kind == "bytes" and pty.n is not None and v.ty.n != pty.n:
+                if pty.kind == "bytes" and pty.n is not None and v.ty.n is not None and v.ty.n != pty.n:
                     raise TranslateError(f"argument {pn}: array length")
                 texts.append(v.p())
-        for g in info.cgen:
+        if info.cgen:
             raise TranslateError("call of a const-generic function")
         gen = self.dict_for(info.spec.mod, info.spec.fn)
         text = f"{info.spec.lean_name} {gen}" + " ".join(texts)
@@ -1551,6 +1720,8 @@ class Tr:
                 raise TranslateError("array length of a let")
         if name == "_":
             return self.wrap(pre, rest(env2))
+        if v.ty.kind == "prop":
+            v = self.coerce(v, TBool, f"let {name}")
         vty = v.ty
         if vty.kind == "bytes" and v.lentext is not None and vty.n is None:
             pass
@@ -1562,9 +1733,11 @@ class Tr:
         ln = lean_id(name)
         if v.at and v.t == ln:
             return body
-        if v.at and is_temp(v.t) and pre and isinstance(pre[-1], (BindF, LetF)) and pre[-1].pat == v.t:
+        if v.at and is_temp(v.t) and pre and isinstance(pre[-1], (BindF, LetF, IfBindF)) and pre[-1].pat == v.t:
             pre[-1].pat = ln
             return body
+        if v.t.startswith("{ ") and " with " not in v.t:
+            ln += f" : {v.ty.lean}"
         return Let(ln, v.t, body)
 
     def do_assign(self, s, env, rest):
@@ -1573,6 +1746,11 @@ class Tr:
         if pl is None:
             return self.assign_through(lhs, op, rhs, env, rest)
         pre = []
+        if op == "^=" and env[pl.root].kind != "uninit":
+            lt = self.place_type(pl, env)
+            if lt.kind == "ext" and self.find_ext_method(lt, "bitxor_assign") is not None:
+                self.method(("method", lhs, "bitxor_assign", [rhs]), env, pre, None)
+                return self.wrap(pre, rest(dict(env)))
         if op != "=":
             rhs = ("bin", op[:-1], lhs, rhs)
         if env[pl.root].kind == "uninit":
@@ -1591,10 +1769,22 @@ class Tr:
         if pl.path and pl.path[-1][0] == "elem":
             parent = self.read_place(pl, env, [], upto=len(pl.path) - 1)
             ix = self.ex(pl.path[-1][1], env, pre, TNat("usize"))
-            n = parent.ty.n if parent.ty.kind in ("bytes", "ext") else None
-            if not (ix.lit is not None and n is not None and ix.lit < n):
-                pre.append(GuardF(f"{ix.t} < {self.length_of(parent) if parent.ty.kind == 'bytes' else n}"))
-            info = ix.p()
+            if ix.ty.kind != "nat" or ix.ty.rust != "usize":
+                raise TranslateError("index is not a usize")
+            if parent.ty.kind == "bytes":
+                if not (ix.lit is not None and parent.ty.n is not None and ix.lit < parent.ty.n):
+                    pre.append(GuardF(f"{ix.t} < {self.length_of(parent)}"))
+                info = ("set", ix.p())
+            elif parent.ty.kind == "ext" and getattr(parent.ty, "elem", None) is not None:
+                if ix.lit is not None and parent.ty.n is not None:
+                    if ix.lit >= parent.ty.n:
+                        raise TranslateError("constant index beyond the array length")
+                    info = ("set", ix.p())
+                else:
+                    pre.append(GuardF(f"{ix.t} < " + (str(parent.ty.n) if parent.ty.n is not None else f"{parent.p()}.size")))
+                    info = ("setIfInBounds", ix.p())
+            else:
+                raise TranslateError("element assignment into a non-array")
         elif pl.path and pl.path[-1][0] == "slice":
             raise TranslateError("assignment to a slice")
         env2 = dict(env)
@@ -1606,7 +1796,23 @@ class Tr:
         return self.wrap(pre, rest(env2))
 
     def assign_through(self, lhs, op, rhs, env, rest):
-        raise TranslateError("assignment to a non-place")
+        """`*recv.m(args) = e;` through a lens"""
+        li = self.lens_info(lhs, env)
+        if li is None or op != "=":
+            raise TranslateError("assignment to a non-place")
+        info, recv_e, args = li
+        get_name, set_name, elem, gfal, sfal = info.lens
+        pre = []
+        v = self.coerce(self.ex(rhs, env, pre, elem), elem, "assignment")
+        cur, wb, direct, argt = self.lens_texts(info, recv_e, args, env, pre)
+        text = f"{set_name} {cur.p()} {argt}".rstrip() + " " + v.p()
+        if direct is not None:
+            pre.append(BindF(direct, text) if sfal else LetF(direct, text))
+        else:
+            t2 = self.tmp()
+            pre.append(BindF(t2, text) if sfal else LetF(t2, text))
+            wb(t2, pre)
+        return self.wrap(pre, rest(dict(env)))
 
     def do_macro(self, e, env, rest):
         name, args = e[1], e[2]
@@ -1659,7 +1865,7 @@ class Tr:
 
     # ------------------------------------------------------------------------------------------- loops
     def carried_and_captured(self, body_stmts, extra_exprs, env, exclude=()):
-        carried = [n for n in self.assigned_roots(body_stmts, env) if n not in exclude]
+        carried = [n for n in self.assigned_roots(body_stmts, env) if n not in exclude and env[n].kind != "uninit"]
         used = names_in(body_stmts, set())
         for x in extra_exprs:
             names_in(x, used)
@@ -1735,6 +1941,7 @@ class Tr:
             raise TranslateError("loop without effect")
         aux = self.new_loop()
         benv = {n: env[n] for n in captured + carried}
+        benv.update({n: env[n] for n in env if env[n].kind == "uninit"})
         if used:
             self.check_shadow(var)
             benv[var] = lo.ty
@@ -1911,10 +2118,12 @@ class Tr:
             raise TranslateError("function without result")
         return Ret(outs[0] if len(outs) == 1 else "(" + ", ".join(outs) + ")")
 
-    def translate(self):
+    def translate(self, name=None):
         sp = self.spec
+        lean_name = name or sp.lean_name
+        mode = getattr(self, "lens_mode", None)
         hdr, body = find_fn(self.src, sp.fn, sp.scope)
-        name, generics, params, ret = parse_sig(hdr)
+        _, generics, params, ret = parse_sig(hdr)
         env, plist, self.out_vars = {}, [], []
         for g in sp.const_generics:
             if g not in generics:
@@ -1922,13 +2131,23 @@ class Tr:
             self.cgen[g] = True
         for pn, pt in params:
             ty = self.conv(pt)
-            mode = "mut" if isinstance(pt, tuple) and pt[0] == "ref" and pt[1] else "val"
-            env[pn] = ty; plist.append((pn, ty, mode))
-            if mode == "mut":
+            mut = isinstance(pt, tuple) and pt[0] == "ref" and pt[1]
+            pmode = "mut" if mut else "val"
+            env[pn] = ty; plist.append((pn, ty, pmode))
+            if mut and mode != "get":
                 self.out_vars.append(pn)
         self.ret_ty = self.conv(ret) if ret is not None else None
-        self.base = sp.lean_name[:-4] if sp.lean_name.endswith("_src") else sp.lean_name
+        self.base = lean_name[:-4] if lean_name.endswith("_src") else lean_name
         stmts = parse_body(body)
+        if mode is not None:
+            if not (isinstance(ret, tuple) and ret[0] == "ref" and ret[1]) or not stmts or stmts[-1][0] != "ret":
+                raise TranslateError("a lens must return `&mut` and end in a place expression")
+            if not (plist and plist[0][0] == "self" and plist[0][2] == "mut"):
+                raise TranslateError("a lens takes `&mut self`")
+            if mode == "set":
+                env["new_"] = self.ret_ty; plist.append(("new_", self.ret_ty, "val"))
+                stmts = stmts[:-1] + [("assign", stmts[-1][1], "=", ("path", "new_"))]
+                self.ret_ty = None
         node = self.seq(stmts, 0, env, lambda env2: self.final(env2, None), lambda env2, v: self.final(env2, v))
         fal = fallible(node)
         out_tys = [env[n].lean for n in self.out_vars]
@@ -1941,8 +2160,9 @@ class Tr:
         parts = [a.text for a in self.aux]
         cg = "".join(f"({g} : Nat) " for g in sp.const_generics)
         ptext = self.params_text([p[0] for p in plist], env)
-        doc = f"/-- {sp.doc + ' — ' if sp.doc else ''}GENERATED from `fn {sp.fn}` in {self.mod.file} -/\n"
-        parts.append(doc + f"def {sp.lean_name} {gb}{cg}{ptext} : {mty} :=\n" + R.go(node, 2))
+        what = {None: "", "get": " (the value behind the returned `&mut`)", "set": " (assignment through the returned `&mut`)"}[mode]
+        doc = f"/-- {sp.doc + ' — ' if sp.doc else ''}GENERATED from `fn {sp.fn}` in {self.mod.file}{what} -/\n"
+        parts.append(doc + f"def {lean_name} {gb}{cg}{ptext} : {mty} :=\n" + R.go(node, 2))
         REGISTRY[(sp.owner, sp.fn)] = FnInfo(sp, plist, self.ret_ty, self.out_vars, fal, sp.const_generics)
         return "\n".join(parts)
 
@@ -1959,10 +2179,26 @@ def check_struct(spec):
             + ", ".join(f"{f} : {t}" for f, t in got) + " -/\n" + f"def {spec.lean_name} : Unit := ()\n")
 
 
+def translate_lens(spec):
+    """a `&mut`-returning accessor `fn m(&mut self, args) -> &mut T { …; &mut self.place }` as a getter and a setter"""
+    base = spec.lean_name[:-4] if spec.lean_name.endswith("_src") else spec.lean_name
+    gt = Tr(spec); gt.lens_mode = "get"
+    g_text = gt.translate(name=base + "_get_src")
+    g_info = REGISTRY.pop((spec.owner, spec.fn))
+    st = Tr(spec); st.lens_mode = "set"
+    s_text = st.translate(name=base + "_set_src")
+    s_info = REGISTRY[(spec.owner, spec.fn)]
+    s_info.params = g_info.params
+    s_info.lens = (base + "_get_src", base + "_set_src", g_info.ret, g_info.fallible, s_info.fallible)
+    return g_text + "\n" + s_text
+
+
 def translate(spec):
     REGISTRY.pop((spec.owner, spec.fn), None)
     if spec.kind == "check_struct":
         return check_struct(spec)
+    if spec.kind == "lens":
+        return translate_lens(spec)
     cls = getattr(spec, "tr_class", None) or Tr
     return cls(spec).translate()
 
